@@ -302,11 +302,12 @@ def stringCastMangler (parse : String → Ty → Outcome Val) : Mangler :=
         match v with
         | .nilv => .ok .nilv
         | .ptr (.s str) =>
-          -- castTo is `sf.Type.Elem()` for everything but slices and maps: Type.Elem() panics for a type
-          -- without an element type (a scalar or struct that Pointerify did not wrap: the fields of a
-          -- struct behind `**T`); for an array it is the element type and the parsed pointer is rejected
-          -- downstream as not assignable (an error either way)
-          if !hasElemTy t then .panic "reflect: Elem of invalid type" else
+          -- castTo is `sf.Type.Elem()` for everything but slices and maps.  A type without an element type
+          -- (a scalar or struct that Pointerify did not wrap: the fields of a struct behind `**T`) is
+          -- rejected with an error (since the repair of P02; Type.Elem() panicked before); for an array
+          -- castTo is the element type and the parsed pointer is rejected downstream as not assignable
+          -- (an error either way)
+          if !hasElemTy t then .err "cannot cast a string to a field that is not a pointer, slice or map" else
           let castTo := match t with
             | .slice _ => t
             | .map _ _ => t
